@@ -107,6 +107,10 @@ type World struct {
 	Clock     int64            `json:"clock"`
 	ClockMode int              `json:"clock_mode"`
 
+	// WriteDelay makes every WriteFile take this long (a slow disk): wall-clock time passes between
+	// reading the configuration and building the entities that follow the first write.
+	WriteDelay time.Duration `json:"-"`
+
 	// per-run state (not part of the persistent state)
 	Log      []WriteRec `json:"-"`
 	Deletes  []string   `json:"-"`
@@ -187,6 +191,9 @@ func (w *World) FS() fs.FS { return w.view() }
 func (w *World) Stat(name string) (os.FileInfo, error) { return w.view().Stat(name) }
 
 func (w *World) WriteFile(name string, content []byte) error {
+	if w.WriteDelay > 0 {
+		time.Sleep(w.WriteDelay)
+	}
 	k := w.writes
 	w.writes++
 	var ft *Fault
